@@ -43,8 +43,14 @@ PredEvents == [g : GeomOpts, sc : {<<3, 1>>, <<0, 0>>} \cup (IF Rich THEN {<<2, 
 SeqsOf(S, k) == UNION {[1..l -> S] : l \in 0..k}
 Anchor == [id |-> 1, anns |-> <<[g |-> <<I1>>, cls |-> 1]>>, preds |-> <<[g |-> <<I2>>, sc |-> <<3, 1>>]>>]
 \* "events": the anchor clip (keeps the run-level metrics defined) and one clip with every arrangement of events
+\* detection confidences (SoundEventPrediction.score, quarters) of the predictions of the varied clip: ascending, descending
+\* or equal along the list, chosen by the first annotation (none: equal; class 1: descending; else ascending).  No clause
+\* reads them: who is matched with whom does not depend on the confidence.
+ConfPattern(anns) == IF anns = <<>> THEN 2 ELSE IF anns[1].cls = 1 THEN 1 ELSE 0
+WithConf(preds, pat) == [k \in DOMAIN preds |-> [g |-> preds[k].g, sc |-> preds[k].sc,
+                                                conf |-> CASE pat = 0 -> k [] pat = 1 -> 4 - k [] OTHER -> 2]]
 EventCases ==
-    {[kind |-> "lat", vocab |-> 2, clips |-> <<Anchor, [id |-> 2, anns |-> x[1], preds |-> x[2]]>>,
+    {[kind |-> "lat", vocab |-> 2, clips |-> <<Anchor, [id |-> 2, anns |-> x[1], preds |-> WithConf(x[2], ConfPattern(x[1]))]>>,
       porder |-> <<2, 1>>, aorder |-> <<1, 2>>] :
         x \in {y \in SeqsOf(AnnEvents, MaxSide) \X SeqsOf(PredEvents, MaxSide) : Len(y[1]) + Len(y[2]) <= MaxTotal}}
 \* "clips": three clips of one recording, in the prediction list / annotation list / both, in every order
@@ -87,6 +93,13 @@ ZeroCases ==
       porder |-> <<2, 1>>, aorder |-> <<1, 2>>] :
         x \in {y \in SeqsOf([g : ZeroGeoms, cls : {1}], 2) \X SeqsOf([g : ZeroGeoms, sc : {<<3, 1>>}], 2) :
                   Len(y[1]) + Len(y[2]) <= 3 /\ Len(y[1]) >= 1 /\ Len(y[2]) >= 1}}
+\* boxes apart on BOTH axes (diagonal neighbours, one tick in time and one in frequency): they do not overlap
+DiagGeoms == {<<I1>>, <<I2>>, <<G("BoundingBox", <<3, 4, 5, 6>>)>>}
+DiagCases ==
+    {[kind |-> "lat", vocab |-> 2, clips |-> <<Anchor, [id |-> 2, anns |-> x[1], preds |-> x[2]]>>,
+      porder |-> <<2, 1>>, aorder |-> <<1, 2>>] :
+        x \in {y \in SeqsOf([g : DiagGeoms, cls : {1}], 2) \X SeqsOf([g : DiagGeoms, sc : {<<3, 1>>}], 2) :
+                  Len(y[1]) + Len(y[2]) <= 3 /\ Len(y[1]) >= 1 /\ Len(y[2]) >= 1}}
 \* "terms": vocabularies, annotation tags and predicted tags over tags whose terms share a label or a name (Detection: tag table)
 VocOpts  == {<<1, 4>>, <<1, 2>>, <<2, 1>>, <<3, 1>>, <<4, 3>>, <<2, 3>>}
 ATagOpts == {<<>>, <<1>>, <<2>>, <<3>>, <<4>>, <<2, 1>>}
@@ -97,7 +110,7 @@ TermCases ==
       porder |-> <<2, 1>>, aorder |-> <<1, 2>>] : v \in VocOpts, a \in ATagOpts, p \in PTagOpts}
 Cases == CASE Universe = "events" -> EventCases
            [] Universe = "clips"  -> ClipCases
-           [] Universe = "extra"  -> HoleCases \cup TermCases \cup TimeCases \cup ZeroCases
+           [] Universe = "extra"  -> HoleCases \cup TermCases \cup TimeCases \cup ZeroCases \cup DiagCases
 
 (* ---- rationals ---- *)
 RMean(s) ==     \* mean of a sequence of rationals, <<0, 1>> for the empty sequence (_mean returns 0.0)
